@@ -9,6 +9,7 @@ import (
 	"net/http"
 	"strings"
 	"sync"
+	"syscall"
 	"time"
 
 	"verifharness/hx"
@@ -51,6 +52,9 @@ func runRobust(c *ctx) error {
 	s.Quiet["ImpactList"] = true
 	s.WithDisk = false
 	rng := c.rng
+	if c.only == "stalled" {
+		return runStalled(c, t, s, lc)
+	}
 	if err := s.fresh("robust/http", 1000); err != nil {
 		return err
 	}
@@ -215,5 +219,58 @@ func runRobust(c *ctx) error {
 	c.summary["events"] = t.Events
 	c.summary["counts"] = t.Counts
 	c.summary["samples"] = t.Sample
+	return t.Close()
+}
+
+// runStalled (--only stalled): clients request the largest reply the server produces - the live statistics of well over a
+// thousand devices, more than the kernel buffers of a connection hold - and then stop reading it (tiny receive buffers).
+// Other requests keep being answered, reports keep being handled, and the server can be shut down. The many
+// authorizations are not traced (their events would make the trace quadratic): this trace is validated for its
+// Http / Start events only.
+func runStalled(c *ctx, t *hx.Trace, s *scn, lc *logCapture) error {
+	for _, q := range []string{"Authorize", "RecvReport", "UDPRead", "Direct", "ImpactSet", "RotPoll", "QueryStats", "QueryEquipment", "QueryRecent"} {
+		s.Quiet[q] = true
+	}
+	s.NoResp = true
+	if err := s.fresh("robust/stalled-reader", 1000); err != nil {
+		return err
+	}
+	ndev := 1400
+	for i := uint32(1); i <= uint32(ndev); i++ {
+		s.Authorize(s.BuildAuth(hx.AuthSpec{ID: i, Key: fmt.Sprintf("st%d", i), Cap: 100, Signer: "gca"}))
+	}
+	hp, _, _ := s.Srv.Ports()
+	var stalled []net.Conn
+	for _, path := range []string{"/api/v1/all-device-stats", "/api/v1/all-device-stats?timeslot_offset=0", "/api/v1/equipment"} {
+		d := net.Dialer{Timeout: 3 * time.Second, Control: func(network, address string, rc syscall.RawConn) error {
+			return rc.Control(func(fd uintptr) { syscall.SetsockoptInt(int(fd), syscall.SOL_SOCKET, syscall.SO_RCVBUF, 2048) })
+		}}
+		cn, err := d.Dial("tcp", fmt.Sprintf("127.0.0.1:%d", hp))
+		if err != nil {
+			continue
+		}
+		fmt.Fprintf(cn, "GET %s HTTP/1.1\r\nHost: x\r\n\r\n", path)
+		stalled = append(stalled, cn)
+	}
+	time.Sleep(1500 * time.Millisecond)
+	client := &http.Client{Timeout: 8 * time.Second, Transport: &http.Transport{DisableKeepAlives: true}}
+	for k := 0; k < 2; k++ {
+		pst := -1
+		if resp, err := client.Get(fmt.Sprintf("http://127.0.0.1:%d/api/v1/equipment", hp)); err == nil {
+			io.Copy(io.Discard, resp.Body)
+			resp.Body.Close()
+			pst = resp.StatusCode
+		}
+		t.Emit(hx.J{"a": "Http", "ep": "equipment", "method": "GET", "cls": "plain", "query": "", "status": pst, "probe": pst, "panic": lc.takePanics() > 0})
+	}
+	t.Emit(hx.J{"a": "Conns", "idle": 0, "half": len(stalled)})
+	s.Close() // records duration, hang
+	for _, cn := range stalled {
+		cn.Close()
+	}
+	t.Emit(hx.J{"a": "LogPanics", "n": lc.takePanics()})
+	c.summary["events"] = t.Events
+	c.summary["counts"] = t.Counts
+	c.summary["devices"] = ndev
 	return t.Close()
 }
